@@ -1,6 +1,6 @@
 import FlytModel.Generated.IR
 import FlytModel.Expected.IR
-/-! The translation of `Flow_Post` from the CURRENT source is, term for term, the IR the refinement theorems are about. -/
+/-! The translation of `Flow_Post` from the CURRENT source is, term for term, the expected IR. -/
 namespace Flyt.Tie
 theorem Flow_Post : Flyt.Generated.IR.Flow_Post = Flyt.Expected.IR.Flow_Post := rfl
 end Flyt.Tie
